@@ -103,16 +103,11 @@ func (am *YAMLAccountManager) Update(account hotline.Account, newLogin string) e
 	am.mu.Lock()
 	defer am.mu.Unlock()
 
-	// If the login has changed, rename the account file.
-	if account.Login != newLogin {
-		err := os.Rename(
-			filepath.Join(am.accountDir, path.Join("/", account.Login)+".yaml"),
-			filepath.Join(am.accountDir, path.Join("/", newLogin)+".yaml"),
-		)
-		if err != nil {
-			return fmt.Errorf("error renaming account file: %w", err)
-		}
+	oldPath := filepath.Join(am.accountDir, path.Join("/", account.Login)+".yaml")
+	newPath := filepath.Join(am.accountDir, path.Join("/", newLogin)+".yaml")
+	renamed := account.Login != newLogin
 
+	if renamed {
 		delete(am.accounts, account.Login)
 
 		account.Login = newLogin
@@ -124,8 +119,21 @@ func (am *YAMLAccountManager) Update(account hotline.Account, newLogin string) e
 		return err
 	}
 
-	if err := os.WriteFile(filepath.Join(am.accountDir, path.Join("/", newLogin)+".yaml"), out, 0644); err != nil {
+	// Replace the existing account file atomically (temporary file + rename) so that a crash leaves either the old
+	// or the new account, never a truncated file.  For a changed login the file already carries the new login when
+	// it is finally renamed to its new name.
+	tempPath := oldPath + ".tmp"
+	if err := os.WriteFile(tempPath, out, 0644); err != nil {
 		return fmt.Errorf("error writing account file: %w", err)
+	}
+	if err := os.Rename(tempPath, oldPath); err != nil {
+		return fmt.Errorf("error writing account file: %w", err)
+	}
+
+	if renamed {
+		if err := os.Rename(oldPath, newPath); err != nil {
+			return fmt.Errorf("error renaming account file: %w", err)
+		}
 	}
 
 	am.accounts[account.Login] = account
